@@ -349,6 +349,99 @@ func runC06(p *core.Prog, r *core.Report, tier string) {
 	}
 	r.Floor("C06.g calls with co-indexed slice arguments", nPar, 2)
 
+	// ---- (k) the groups a batch is split into are signed independently: where a signing method tests two of its own
+	// groups for being non-empty, the second test is reached whether or not the first group was empty ----
+	nGroups := 0
+	for _, f := range fns {
+		if f.Parent() != nil {
+			continue
+		}
+		type groupTest struct {
+			iff  *ssa.If
+			edge int // the edge on which the group is non-empty
+			what string
+		}
+		var tests []groupTest
+		for _, b := range f.Blocks {
+			iff, ok := b.Instrs[len(b.Instrs)-1].(*ssa.If)
+			if !ok {
+				continue
+			}
+			c := core.DecodeCond(ds, iff)
+			if c.Op == "" || c.X == nil || c.Y == nil {
+				continue
+			}
+			lenOf := func(d *core.VD) ssa.Value {
+				if call, ok := d.Val.(*ssa.Call); ok {
+					if bi, ok := call.Call.Value.(*ssa.Builtin); ok && bi.Name() == "len" {
+						return call.Call.Args[0]
+					}
+				}
+				return nil
+			}
+			var coll ssa.Value
+			var other *core.VD
+			flip := false
+			if v := lenOf(c.X); v != nil {
+				coll, other = v, c.Y
+			} else if v := lenOf(c.Y); v != nil {
+				coll, other, flip = v, c.X, true
+			}
+			if coll == nil || other.Val == nil || !core.IsIntConst(other.Val, 0) {
+				continue
+			}
+			if _, isPrm := coll.(*ssa.Parameter); isPrm {
+				continue // the method's own input, not one of the groups it was split into
+			}
+			if _, isSlice := coll.Type().Underlying().(*types.Slice); !isSlice {
+				continue
+			}
+			edge := -1
+			for e := 0; e < 2; e++ {
+				rel := c.RelOnEdge(e)
+				if flip {
+					rel = core.FlipRel(rel)
+				}
+				if rel == ">" || rel == "!=" {
+					edge = e
+				}
+			}
+			if edge < 0 {
+				continue
+			}
+			// the non-empty arm signs: a call of a function of this package with the group among its arguments
+			signs := false
+			for _, ci := range core.Calls(f, func(cc *ssa.CallCommon) bool { g := cc.StaticCallee(); return g != nil && g.Pkg == f.Pkg }) {
+				for _, a := range ci.Common().Args {
+					if a == coll && b.Succs[edge].Dominates(ci.Block()) {
+						signs = true
+					}
+				}
+			}
+			if signs {
+				name := core.SourceName(coll)
+				if phi, ok := coll.(*ssa.Phi); ok && phi.Comment != "" {
+					name = phi.Comment
+				}
+				if name == "" {
+					name = fmt.Sprintf("group#%d", len(tests)+1)
+				}
+				tests = append(tests, groupTest{iff, edge, name})
+			}
+		}
+		for i, a := range tests {
+			for j, bt := range tests {
+				if i == j || !a.iff.Block().Dominates(bt.iff.Block()) {
+					continue
+				}
+				nGroups++
+				w := core.PathQuery{Fn: f, StartEdge: &[2]*ssa.BasicBlock{a.iff.Block(), a.iff.Block().Succs[a.edge]}, Target: func(in ssa.Instruction) bool { return in == ssa.Instruction(bt.iff) }}.Find()
+				r.Check(w != nil, "C06.k", fmt.Sprintf("%s|groups-signed-independently|%s|%s", core.FnKey(f), a.what, bt.what), p.Pos(core.IfPos(bt.iff)), "the second group is signed whether or not the first one was empty",
+					"the group "+bt.what+" is signed only when the group "+a.what+" is empty: in a batch that holds both kinds of account the second group gets no signatures (its entries stay zero-valued)")
+			}
+		}
+	}
+	r.Floor("C06.k pairs of independently signed groups", nGroups, 2)
 }
 
 // domainKeyOfLeaf resolves one leaf stored into a domain-type field of New to its spec key, checking that a
